@@ -316,7 +316,9 @@ def check_group(res, rec, args, omitted, argform, ti):
             ref = (label, text, out, runs, form)
             continue
         res.transitions += 1
-        if (out, runs) != ref[2:4]:
+        # the property demands equal results; the run count of the definition under test is compared only when
+        # it ran in both spellings (a more specific sibling overload may legitimately serve one spelling)
+        if out != ref[2] or (runs and ref[3] and runs != ref[3]):
             res.fail('spellings-disagree def=%s spelling=%s' % (rec.ident, cls),
                      dict(case, kind='group', a=ref[1], fa=ref[4], b=text, fb=form),
                      '%s -> %r runs=%d   but   %s -> %r runs=%d' % (ref[1], ref[2], ref[3], text, out, runs))
